@@ -282,3 +282,45 @@ Section Conv.
     rewrite (covers_caught cf e Hc (H_float_val v e E)). eauto.
   Qed.
 End Conv.
+
+(* ------------------------------------------------------------------ the lines of a text, as documented *)
+(* every line break ends a line; the text after the last break is the last line (empty when
+   the text ends with a break) *)
+Fixpoint doc_lines_go (cur : str) (s : str) : list str :=
+  match s with
+  | [] => [rev cur]
+  | c :: r =>
+      if is_linebreak c then
+        match r with
+        | c2 :: r' => if ((c =? 13) && (c2 =? 10))%N then rev cur :: doc_lines_go [] r'
+                      else rev cur :: doc_lines_go [] r
+        | [] => [rev cur; []]
+        end
+      else doc_lines_go (c :: cur) r
+  end.
+Definition doc_lines (s : str) : list str := doc_lines_go [] s.
+Fixpoint ends_with_cr (s : str) : bool :=
+  match s with
+  | [] => false
+  | c :: r => match r with [] => (c =? 13)%N | _ => ends_with_cr r end
+  end.
+
+(* do_indent's `s + "\n"` quirk computes the documented lines — unless the text ends with a
+   lone carriage return, which then merges with the appended "\n" into one break *)
+Lemma splitlines_quirk : forall n s cur, length s <= n -> ends_with_cr s = false ->
+  splitlines_go cur (s ++ [10%N]) = doc_lines_go cur s.
+Proof.
+  induction n as [|n IH]; intros s cur Hn Hcr.
+  - destruct s; [reflexivity|cbn in Hn; lia].
+  - destruct s as [|c r]; [reflexivity|]. cbn [app splitlines_go doc_lines_go].
+    destruct (is_linebreak c) eqn:Ec.
+    + destruct r as [|c2 r'].
+      * cbn [app]. cbn [ends_with_cr] in Hcr. rewrite Hcr. cbn [andb].
+        cbn [splitlines_go]. reflexivity.
+      * cbn [app]. destruct ((c =? 13)%N && (c2 =? 10)%N) eqn:E2.
+        -- f_equal. destruct r' as [|c3 r''].
+           ++ reflexivity.
+           ++ apply IH; [cbn [length] in *; lia|]. exact Hcr.
+        -- f_equal. apply (IH (c2 :: r') []); [cbn [length] in *; lia|exact Hcr].
+    + apply IH; [cbn [length] in *; lia|]. destruct r; [reflexivity|exact Hcr].
+Qed.
